@@ -12,7 +12,10 @@ package main
 // Judged (only what the property text states):
 //   S1  runs 1+2: no prepare / exec / query event (begin/commit/rollback are permitted: "a write may still open and
 //       commit an empty implicit transaction"; an explicit user transaction is the user's own driver call)
-//   S2  run 3: no driver event at all
+//   S2  run 3: no driver event at all.  An explicit user transaction inside the callback (derivations `transaction`,
+//       `begin`) that sends begin + commit/rollback and no statement is the pattern of finding F25: reported as
+//       KNOWN-FINDING while that entry is listed, an ordinary VIOLATION once it is marked fixed (the case is then
+//       judged like every other one: silent, and E1/E2 on the statement of the inner finisher).
 //   E1  runs 1, 2, 3 expose the same statement (ToSQL's string is Explain of run 1's SQL/Vars)
 //   E2  the exposed SQL/Vars equal the MAIN statement of run 4: among the statements run 4 sent with the same verb and
 //       table as the exposed one (association upserts, hook statements, preloads come before/after it) one must be equal
